@@ -195,3 +195,9 @@ func IteU64(c bool, a, b uint64) uint64 {
 	}
 	return b
 }
+
+// HangBudget declares that the code run from here on must return within n
+// interpreted instructions (0 = off); exceeding it is reported as a violation
+// ("does not return"). Natively the replay runner's wall-clock watchdog plays
+// this role.
+func HangBudget(n int) {}
